@@ -134,6 +134,12 @@ def h_vbs(e, st, o, name, args, kwargs):
     if name == "should_transmit_vam":
         b = z3.Bool(e.fresh("should_transmit"))
         yield st.ghost_append("suppression_asked", b), b
+    elif name in ("get_cluster_information_container", "get_cluster_operation_container"):
+        e.used_assumptions.add("clustering manager seen from the VAM sender: each container getter answers None or some container (their content is C18's / C11's)")
+        log = "info_container" if "information" in name else "op_container"
+        yield st.ghost_append(log, NONE), NONE
+        c = _m.Opaque("object", _m._ident(e, "object", log))
+        yield st.ghost_append(log, c), c
     else:
         raise _m.Unsupported(f"clustering manager .{name}")
 
@@ -142,9 +148,17 @@ def _send_ghost(e, st, env):
     return st.ghost_append("vams", env["vam"])
 
 
+def h_vam_coder(e, st, o, name, args, kwargs):
+    e.used_assumptions.add("VAM coder seen from the VAM sender: encode returns some bytes (that the values built fit the ASN.1 constraints is C11's harness obligation)")
+    for s1, v in h_coder(e, st, o, name, args, kwargs):
+        if not isinstance(v, _m.RaiseV):
+            yield s1, v
+
+
 def setup_vam(e):
     setup(e)
     e.opaque_handlers["vbs_manager"] = h_vbs
+    e.opaque_handlers["vam_coder"] = h_vam_coder
 
 
 SV = dict(S, engine_setup=setup_vam)
@@ -156,9 +170,26 @@ contract(f"{CT}:CooperativeAwarenessMessage.fullfill_with_tpv_data", props=[], a
 contract(f"{LC}:Utils.euclidian_distance", props=[], assumed=True, mode="int", spec_module="spec_cam",
          shapes={"point1": T.tuple(T.float(), T.float()), "point2": T.tuple(T.float(), T.float())},
          ensures={"uf": "result == uf('euclid', 'real', point1[0], point1[1], point2[0], point2[1])"})
-contract(f"{VT}:VAMTransmissionManagement.send_next_vam", props=[], assumed=True, shapes={"self": VTM, "vam": T.opaque("object")},
+_P = "ghost('encoded')[0]['vam']['vamParameters']"
+_VAMFULL = T.rec(f"{VT}:VAMMessage", cam=T.opaque("object"), vam=T.dict(_open=True, header=T.dict(_open=True, stationId=T.int(0, 4294967295)), vam=T.dict(
+    _open=True, generationDeltaTime=T.int(0, 65535), vamParameters=T.dict(
+        basicContainer=T.dict(_open=True, referencePosition=T.dict(_open=True, latitude=T.int(-900000000, 900000001), longitude=T.int(-1800000000, 1800000001))),
+        vruHighFrequencyContainer=T.dict(_open=True, speed=T.dict(_open=True, speedValue=T.int(0, 16383)), heading=T.dict(_open=True, value=T.int(0, 3601)))))))
+contract(f"{VT}:VAMTransmissionManagement.send_next_vam", props=["C18", "C11"], shapes={"self": VTM, "vam": _VAMFULL},
          modifies=["self.last_vam_generation_delta_time", "self.last_sent_position", "self.last_vam_speed", "self.last_vam_heading", "self.is_first_vam", "self.last_lf_vam_time"],
-         ghost_effect=_send_ghost, ensures={}, **{k: v for k, v in SV.items() if k != "props"})
+         ghost_effect=_send_ghost, callsite_ensures=[], inline=[f"{VT}:VAMTransmissionManagement._attach_lf_container_if_due"],
+         ensures={"the_state_machine_is_asked_for_both_cluster_containers_for_every_vam":
+                  "implies(self.clustering_manager is not None, len(ghost('info_container')) == 1 and len(ghost('op_container')) == 1)",
+                  "cluster_operation_container_supplied_by_the_state_machine_is_in_the_encoded_vam":
+                  "implies(self.clustering_manager is not None and ghost('op_container')[0] is not None, 'vruClusterOperationContainer' in " + _P + " and " + _P + "['vruClusterOperationContainer'] is ghost('op_container')[0])",
+                  "cluster_information_container_supplied_by_the_state_machine_is_in_the_encoded_vam":
+                  "implies(self.clustering_manager is not None and ghost('info_container')[0] is not None, 'vruClusterInformationContainer' in " + _P + " and " + _P + "['vruClusterInformationContainer'] is ghost('info_container')[0])",
+                  "no_cluster_container_of_its_own_making":
+                  "implies(self.clustering_manager is None or ghost('op_container')[0] is None, 'vruClusterOperationContainer' not in " + _P + ")",
+                  "the_vam_given_is_the_vam_encoded_and_handed_to_btp_port_2018":
+                  "ghost('encoded')[0] is vam.vam and len(ghost('btp_requests')) == 1 and ghost('btp_requests')[0].destination_port == 2018"},
+         cover=["self.clustering_manager is not None and ghost('op_container')[0] is not None and ghost('info_container')[0] is not None"],
+         **{k: v for k, v in SV.items() if k != "props"})
 contract(f"{VT}:VAMTransmissionManagement.location_service_callback", shapes={"self": VTM, "tpv": VTPV},
          modifies=["self.*"], props=["C10", "C11"],
          ensures={"at_most_one_vam_per_report": "len(ghost('vams')) <= 1",
